@@ -28,6 +28,11 @@
             && payload_enc(self.sd_jwt_payload@, u->Obj_0, s, self.holder_key, self.all_disclosures@, 0)
             && self.signed_ok() && self.combined_ok()
     }
+    // serialising the JSON envelope of this issuance fails (A-JSON: it never does; the reason is a function of the value alone)
+    spec fn json_ser_fails(&self) -> bool {
+        exists|a: Seq<char>, b: Seq<char>, c: Seq<char>| #![trigger json_env(a, b, c, self.raws())]
+            self.signed_sd_jwt@ == a + "."@ + b + "."@ + c && serde_json::ser_fails(json_env(a, b, c, self.raws()))
+    }
     spec fn frame_sign(&self, o: &Self) -> bool {
         self.add_decoy_claims == o.add_decoy_claims && self.sign_alg == o.sign_alg && self.extra_header_parameters == o.extra_header_parameters
             && self.issuer_key == o.issuer_key && self.holder_key == o.holder_key && self.inner == o.inner
